@@ -42,6 +42,7 @@ class SymIter:
         self.label = label
         self._length = length
         self._item = item
+        self.on_exhaust = None  # an Exc the for statement raises when the items are used up (e.g. a failing unpack of a short last batch)
 
     @property
     def length(self):
@@ -428,7 +429,9 @@ def _for_invariant(eng, node, sym: SymIter, spec: LoopSpec, st: State, fr: int):
     head = st.copy()
     for st2, more in eng.branch(i < n, st):
         if not more:
-            if node.orelse:
+            if getattr(sym, "on_exhaust", None) is not None:
+                yield st2, ("raise", sym.on_exhaust)
+            elif node.orelse:
                 yield from eng.exec_block(node.orelse, st2, fr)
             else:
                 yield st2, None
